@@ -88,6 +88,16 @@ Proof.
 Qed.
 Print Assumptions cancel_unblocks.
 
+(* U, every chart, both variants.  From a successful cancel() on -- whatever is stepped, received or
+   cancelled afterwards, until a reset() -- a step(forever) would not block: it never reaches
+   dequeueExternal with an empty queue (the unblock event stays queued until it is consumed, and
+   consuming it returns CANCELLED). *)
+Theorem cancel_never_blocks : forall (C : Type) (ch : chart C) (v : lc_variant) s s1 ops s2,
+  lc_cancel s = Ok s1 -> ~ In OpReset ops -> lc_exec v ch s1 ops = Some s2 ->
+  exists m q, i_stepper s2 = Some m /\ i_queues s2 = Some q /\ would_block C m q = false.
+Proof. exact cancel_never_blocks_lemma. Qed.
+Print Assumptions cancel_never_blocks.
+
 (* U, repaired variant (queues created with the interpreter, reset() clears them): reset() after any
    sequence of calls yields the state of a fresh interpreter, so every continuation is observed alike. *)
 Theorem reset_like_fresh : forall (C : Type) (ch : chart C) (v : lc_variant),
